@@ -414,3 +414,16 @@ def done_means_returned(ctx, db, rid_='C13.done-means-returned'):
                 bad = bad or ('an empty generator is not reported as done', tr)
         ctx.ob(rid, f, f['key'], bad is None and bool(trs), 'generator::done() = no coroutine, or the promise says it returned' + ('' if not bad else ' -- ' + bad[0]), desc=bad[0] if bad else None,
                trace=fmt_trace(bad[1]) if bad else None)
+    # who sets the flag: only return_void (and the constructor / default initialiser).  A flag also set by unhandled_exception makes a body that
+    # threw look like one that returned: every access style then reports a plain end of sequence and the exception never surfaces
+    found = who(db, lambda f, e: e.k == 'write' and field_of(e) == P + '::_done' and not e.get('init') and e.get('const') != 0)
+    seen = set(); n = 0
+    for fname, evl in sorted(found.items()):
+        for f, e in evl:
+            if (fname, e.get('loc')) in seen:
+                continue
+            seen.add((fname, e.get('loc'))); n += 1
+            ok = who_ok(db, f, {P + '::return_void'}) or bool(f.get('ctor'))
+            ctx.ob(rid, f, e['loc'], ok, 'the returned-normally flag is set by return_void only', desc='%s sets the returned-normally flag: a generator that did not return (it threw) is reported as finished and its exception is never delivered' % fname)
+    if n == 0:
+        raise Broken('generator promise: no writer of _done found')
